@@ -147,6 +147,11 @@ def run_random(spec, res):
     for i in range(spec["n"]):
         K = int(rng.integers(2, 13))
         m = int(rng.integers(1, 41))
+        if i % 25 == 7:
+            K = int(rng.integers(13, 40))                 # many clusters
+        big = (i % 25 == 13)
+        if big:
+            m = int(rng.integers(200, 900))               # hundreds of points per refill, thousands per cluster
         sizes = []
         for k in range(K):
             u = rng.random()
@@ -155,7 +160,7 @@ def run_random(spec, res):
             elif u < 0.5:
                 sizes.append(int(rng.integers(2, 2 * m + 1)))
             else:
-                sizes.append(int(rng.integers(2 * m, min(400, 6 * m) + 1)))
+                sizes.append(int(rng.integers(2 * m, (6 * m if big else min(400, 6 * m)) + 1)))
         spreads = [float(v) for v in rng.choice([0.5, 1.0, 1.0, 2.0, 3.0, 7.5], size=K)]
         if i % 3 == 0:
             # spreads that differ only in their fractional part (norms 2.x or 0.x): an integer-typed ranking key cannot order them
